@@ -27,12 +27,20 @@ import operator
 import numpy as np
 
 from glue.core import Data, DataCollection
+from glue.core.hub import HubListener
+from glue.core.message import ComponentsChangedMessage, NumericalDataChangedMessage
+from glue.core.exceptions import IncompatibleAttribute
 from glue.core.component_id import ComponentID
 from glue.core.component_link import ComponentLink
 from glue.core.parse import ParsedCommand, ParsedComponentLink
 
-from vf.common import (VIEW_KINDS, make_view, describe_view, exc_name, rand_floats, injective_floats, rand_ints,
-                       make_coords)
+from vf.common import (VIEW_KINDS, make_view, exc_name, rand_floats, injective_floats, rand_ints,
+                       make_coords, rand_slice)
+from vf.common import describe_view as _describe_view
+
+
+def describe_view(view):
+    return str(view) if isinstance(view, (int, np.integer)) else _describe_view(view)
 
 ID = "C14"
 LEVEL = "exploration"
@@ -58,7 +66,7 @@ ANCHORS = ["glue.core.component_link:BinaryComponentLink.compute", "glue.core.co
            "glue.core.data:Data.remove_component", "glue.core.data:Data._removed_derived_that_depend_on",
            "glue.core.data:Data.update_id", "glue.core.component:DerivedComponent.__getitem__"]
 
-N_EXPR = {"quick": 500, "thorough": 22000}
+N_EXPR = {"quick": 400, "thorough": 22000}
 N_HIST = {"quick": 1000, "thorough": 40000}
 OPS = {"+": operator.add, "-": operator.sub, "*": operator.mul, "/": operator.truediv, "**": operator.pow}
 CONSTS = [2, 0.5, -1, 3, 0, 1.5, -2.0, 1, 2.0, -0.5]
@@ -126,6 +134,9 @@ class Node:
     def __init__(self, nid, kind, label, cid, full=None, desc=None):
         self.nid, self.kind, self.label, self.cid, self.full, self.desc = nid, kind, label, cid, full, desc
         self.renamed_with_dependants = False
+        self.narrow = False      # stored with a dtype narrower than int64 / float64 (see Model.val)
+        self.old_cids = []
+        self.dask = False
 
 
 def leaves(t):
@@ -168,11 +179,14 @@ class RefRaises(Exception):
     pass
 
 
-def ev(t, val, eps):
-    """Reference value of descriptor t; `val(nid, eps)` gives the full array of an input."""
+def ev(t, val, eps, strong=False):
+    """Reference value of descriptor t; `val(nid, eps)` gives the full array of an input.  strong=True types the
+    constants of arithmetic (binary-link) nodes as 0-d numpy arrays (numpy then promotes int8 + 100 to int64 and
+    float32 * 2.5 to float64) instead of leaving them Python scalars (weak promotion); parsed commands are Python
+    expressions and always use Python scalars."""
     k = t[0]
     if k == "c":
-        return t[1]
+        return np.asarray(t[1]) if strong else t[1]
     if k == "name":
         return PNAMES[t[1]]
     if k == "in":
@@ -180,13 +194,20 @@ def ev(t, val, eps):
     if k == "ident":
         return val(t[1], eps)
     if k == "fn":
-        return FUNCS[t[1]][2](*[val(n, eps) for n in t[2]])
+        try:
+            return FUNCS[t[1]][2](*[val(n, eps) for n in t[2]])
+        except (TypeError, ValueError, OverflowError) as e:       # e.g. bool - bool in the native-dtype reading
+            raise RefRaises(exc_name(e))
     if k == "parsed":
-        return ev(t[1], val, eps)
+        return ev(t[1], val, eps, False)
     if k == "call":
-        return CALLS[t[1]][1](*[ev(a, val, eps) for a in t[2]])
-    a = ev(t[1], val, eps)
-    b = ev(t[2], val, eps)
+        args = [ev(a, val, eps, strong) for a in t[2]]
+        try:
+            return CALLS[t[1]][1](*args)
+        except (TypeError, ValueError, OverflowError) as e:
+            raise RefRaises(exc_name(e))
+    a = ev(t[1], val, eps, strong)
+    b = ev(t[2], val, eps, strong)
     try:
         if k == "**" and (isinstance(a, np.ndarray) or isinstance(b, np.ndarray)):
             # numpy evaluates x ** y through different loops depending on how the exponent is laid out: a Python
@@ -195,11 +216,19 @@ def ev(t, val, eps):
             # Which loop glue's operands hit is numpy's business, not part of the property: the unperturbed
             # reference uses the general pow loop on dense arrays, the perturbed one the sqrt reading; elements on
             # which the two disagree are left out by compare().
+            # a Python scalar keeps numpy's weak promotion (float32 ** -1 stays float32, int8 ** 2 stays int8)
+            if not isinstance(a, (np.ndarray, np.generic)):
+                a = np.asarray(a, dtype=np.result_type(np.asarray(b).dtype, a))
+            if not isinstance(b, (np.ndarray, np.generic)):
+                b = np.asarray(b, dtype=np.result_type(np.asarray(a).dtype, b))
             A, B = np.broadcast_arrays(np.asarray(a), np.asarray(b))
             A, B = np.array(A), np.array(B)
             r = np.power(A, B)
             if eps:
-                half = B == 0.5
+                # whether numpy would take the sqrt path is decided by the exponent glue really sees, i.e. the
+                # unperturbed one (2.0 ** -1 is exactly 0.5, its perturbed value is not)
+                b0 = ev(t[2], val, 0.0, strong)
+                half = np.broadcast_to(np.asarray(b0) == 0.5, B.shape) | (B == 0.5)
                 if half.any():
                     r = np.where(half, np.sqrt(A.astype(float)), r)
         else:
@@ -221,21 +250,36 @@ class Model:
         self.nodes[node.nid] = node
         self._cache.clear()
 
-    def val(self, nid, eps=0.0):
-        key = (nid, eps)
+    def val(self, nid, eps=0.0, up=True):
+        """Reference value.  up=True: inputs stored with a narrow dtype (int8, uint8, float32, '>i4' ...) are first
+        widened to int64 / float64 ("mathematical" value); up=False: evaluated in their own dtype with numpy's rules
+        (wrap-around, float32 rounding).  Which of the two an implementation produces depends on how constants are
+        typed, which the statement does not fix: compare() leaves out the elements on which the readings disagree.
+        up="strong": stored dtype, constants of arithmetic nodes typed as numpy arrays (a third reading)."""
+        key = (nid, eps, up)
         if key not in self._cache:
             n = self.nodes[nid]
             if n.desc is None:
                 v = n.full
+                if up is True and n.narrow:
+                    v = v.astype(np.float64 if v.dtype.kind == "f" else np.int64)
             else:
                 with np.errstate(all="ignore"):
-                    v = ev(n.desc, self.val, eps)
+                    v = ev(n.desc, lambda m, e: self.val(m, e, up), eps, strong=(up == "strong"))
                 v = np.asarray(v)
                 if v.dtype.kind not in "biuf":
                     raise RefRaises("non-real reference (%s)" % v.dtype)
                 v = np.broadcast_to(v, self.shape)
             self._cache[key] = v
         return self._cache[key]
+
+    def val_desc(self, desc, eps=0.0):
+        """Reference value of a descriptor that is not stored as a node."""
+        with np.errstate(all="ignore"):
+            v = np.asarray(ev(desc, lambda m, e: self.val(m, e, True), eps))
+        if v.dtype.kind not in "biuf":
+            raise RefRaises("non-real reference (%s)" % v.dtype)
+        return np.broadcast_to(v, self.shape)
 
     def cost(self, nid):
         """Number of elementary reads/ops glue needs to evaluate nid (derived inputs are recomputed every time)."""
@@ -275,13 +319,17 @@ class Model:
                 "has_broadcast_input": bool(allin & {"pixel", "world"}),
                 "has_stored_input": bool(allin & {"stored_float", "stored_int"}),
                 "chain_has_binary_pow": any(d[0] in OPS and has_pow(d) for d in ch),
-                "has_pow": any(has_pow(d) for d in ch)}
+                "has_pow": any(has_pow(d) for d in ch),
+                "has_narrow_input": any(self.nodes[x].narrow for d in ch for x in leaves(d))}
 
 
 UNSTABLE = [0]    # elements left out because the reference itself is unstable (tallied per case)
 
 
-def compare(got, r0, r1):
+AMBIGUOUS = [0]   # elements left out because widened and native-dtype evaluation disagree
+
+
+def compare(got, r0, r1, also=None):
     """None when `got` equals the reference r0.  r1 is the second reference (every pow result perturbed by 1e-12
     relative, sqrt reading of x ** 0.5): the tolerance of an element is widened by its sensitivity |r1 - r0|, and an
     element on which r0 and r1 differ in kind (finite / nan / +inf / -inf) is left out."""
@@ -294,7 +342,8 @@ def compare(got, r0, r1):
         return None
     if got.dtype.kind not in "biuf" or r0.dtype.kind not in "biuf":
         return "dtype"
-    if got.dtype.kind in "biu" and r0.dtype.kind in "biu" and r1.dtype.kind in "biu" and np.array_equal(r0, r1):
+    if also is None and got.dtype.kind in "biu" and r0.dtype.kind in "biu" and r1.dtype.kind in "biu" \
+            and np.array_equal(r0, r1):
         return None if np.array_equal(got, r0) else "value"
     g = got.astype(float)
     a = r0.astype(float)
@@ -308,6 +357,14 @@ def compare(got, r0, r1):
         ok_non = (np.isnan(g) & np.isnan(a)) | ((g == a) & ~np.isnan(a))
     UNSTABLE[0] += int(unstable.sum())
     bad = (fin & ~ok_fin) | (same_nonfin & ~ok_non)
+    if also is not None:
+        same = np.ones(a.shape, dtype=bool)
+        for alt in (also if isinstance(also, list) else [also]):
+            c = np.asarray(alt).astype(float)
+            with np.errstate(all="ignore"):
+                same &= (np.isnan(c) & np.isnan(a)) | (np.abs(c - a) <= tol) | (c == a)
+        AMBIGUOUS[0] += int((~same).sum())
+        bad = bad & same
     return "value" if bad.any() else None
 
 
@@ -390,7 +447,9 @@ def add_derived(d, model, desc, label, rng, to_cid=None):
         link = ComponentLink([model.nodes[desc[1]].cid], target)
         d.add_component_link(link)
     elif k == "parsed":
-        refs = {model.nodes[n].label: model.nodes[n].cid for n in model.nodes if model.nodes[n].cid is not None}
+        labels = [model.nodes[n].label for n in model.nodes]
+        refs = {model.nodes[n].label: model.nodes[n].cid for n in model.nodes
+                if model.nodes[n].cid is not None and labels.count(model.nodes[n].label) == 1}
         cmd = render(desc[1], model, rng)
         link = ParsedComponentLink(target, ParsedCommand(cmd, refs))
         d.add_component_link(link)
@@ -417,24 +476,141 @@ def read(d, cid, view, route):
     return d[cid, view]
 
 
+EXTRA_VIEW_KINDS = ["neg_int", "neg_step", "neg_index_arrays"]
+
+
+def extra_view(rng, shape, kind):
+    """Views with numpy's negative conventions (index -k = n-k, backward slices, negative entries in index arrays)."""
+    nd = len(shape)
+    if kind == "neg_int":
+        n = rng.randint(1, nd)
+        v = [(-rng.randint(1, shape[i])) if rng.random() < 0.6 else rand_slice(rng, shape[i], allow_empty=False) for i in range(n)]
+        if not any(isinstance(x, int) for x in v):
+            v[0] = -rng.randint(1, shape[0])
+        return v[0] if n == 1 and rng.random() < 0.4 else tuple(v)
+    if kind == "neg_step":
+        v = []
+        for i in range(rng.randint(1, nd)):
+            a = rng.choice([None, shape[i] - 1, rng.randrange(shape[i])])
+            b = rng.choice([None, 0, rng.randrange(shape[i])])
+            v.append(slice(a, b, -rng.choice([1, 1, 2, 3])))
+        return tuple(v)
+    if kind == "neg_index_arrays":
+        k = rng.randint(1, 6)
+        return tuple(np.array([rng.randrange(-s, s) for _ in range(k)]) for s in shape)
+    raise ValueError(kind)
+
+
+def case_views(rng, shape):
+    """(kind, view) list: every recipe of vf.common plus the negative conventions; kinds that need at least one
+    element per axis are skipped on zero-size datasets."""
+    zero = 0 in shape
+    out = []
+    for vk in list(VIEW_KINDS) + ["int_slice_mix", "slice_tuple_full"] + EXTRA_VIEW_KINDS:
+        if zero and vk in ("int_slice_mix", "all_int", "index_arrays", "bool_mask", "neg_int", "neg_step", "neg_index_arrays"):
+            continue
+        out.append((vk, make_view(rng, shape, vk) if vk in VIEW_KINDS else extra_view(rng, shape, vk)))
+    return out
+
+
 def vidx(view):
     return Ellipsis if view is None else view
 
 
+LAYOUTS = ["contiguous", "fortran", "transposed_view", "reversed_view", "strided_view", "broadcast_stored"]
+NARROW_DTYPES = ["int8", "uint8", "int16", "uint16", "float32", ">f8", ">i4", "<f4", "bool"]
+
+
+def with_layout(rng, arr, layout):
+    """An array equal to `arr` element by element but laid out differently in memory (theme: what is handed to glue
+    need not be C-contiguous).  broadcast_stored changes the values: returns a stride-0 array of the same shape."""
+    if layout == "fortran":
+        return np.asfortranarray(arr)
+    if layout == "transposed_view":
+        return np.ascontiguousarray(arr.T).T
+    if layout == "reversed_view":
+        return np.ascontiguousarray(arr[(slice(None, None, -1),) * arr.ndim])[(slice(None, None, -1),) * arr.ndim]
+    if layout == "strided_view":
+        big = np.zeros(tuple(2 * n for n in arr.shape), dtype=arr.dtype)
+        sl = (slice(None, None, 2),) * arr.ndim
+        big[sl] = arr
+        return big[sl]
+    if layout == "broadcast_stored":
+        ax = rng.randrange(arr.ndim)
+        if arr.shape[ax] == 0:
+            return arr
+        return np.broadcast_to(np.take(arr, [0], axis=ax), arr.shape)
+    return arr
+
+
+def narrow_values(rng, shape, dt):
+    """Values for a narrow-dtype column: small enough to be exact, large enough for int8/uint8 arithmetic to wrap."""
+    n = int(np.prod(shape))
+    k = np.dtype(dt).kind
+    if k == "b":
+        return np.array([rng.random() < 0.5 for _ in range(n)]).reshape(shape)
+    if k == "f":
+        return np.array([rng.randint(-32, 32) * 0.25 for _ in range(n)], dtype=dt).reshape(shape)
+    lo = 0 if k == "u" else -100
+    return np.array([rng.choice([0, 1, 2, 3, 7, 100, 120, lo, rng.randint(lo, 120)]) for _ in range(n)]).astype(dt).reshape(shape)
+
+
 def make_dataset(rng, tier, max_dim=3, max_len=4, coords_choices=(None, None, "identity", "diagonal", "coupled_symmetric",
-                                                                  "full", "coupled_triangular")):
+                                                                  "full", "coupled_triangular"), rich=False, ctx=None):
     nd = rng.randint(1, max_dim)
     shape = tuple(rng.randint(1, max_len) for _ in range(nd))
+    shape_class = "small"
+    if rich:
+        q = rng.random()
+        if q < 0.08:
+            # enough rows (with duplicates) to leave numpy's small-array code paths
+            ax = rng.randrange(nd)
+            shape = tuple(rng.randint(120, 260) if j == ax else min(s, 2) for j, s in enumerate(shape))
+            shape_class = "large"
+        elif q < 0.12:
+            ax = rng.randrange(nd)
+            shape = tuple(0 if j == ax else s for j, s in enumerate(shape))
+            shape_class = "zero_size"
+        elif q < 0.2:
+            shape = (1,) * nd
+            shape_class = "single_element"
     ck = rng.choice(coords_choices)
     cobj = make_coords(rng, nd, ck)
     d = Data(label="d", **({"coords": cobj} if cobj is not None else {}))
     model = Model(shape)
     arrays = [("v", "stored_float", rand_floats(rng, shape, p_special=0.2)),
-              ("w w", "stored_float", injective_floats(rng, shape)),
+              ("w w", "stored_float", injective_floats(rng, shape) if int(np.prod(shape)) else np.zeros(shape)),
               ("i", "stored_int", rand_ints(rng, shape))]
+    if rich:
+        # magnitudes from 1e-10 to 1e12 in one column; a narrow / big-endian dtype column whose label shares a prefix
+        mags = [1e-10, 2.5e-10, 1e-3, 1.0, 1e6, 1e12, -1e12, 3e-10]
+        g = np.array([rng.choice(mags) * rng.choice([1.0, 1.5, -2.0, 0.75]) for _ in range(int(np.prod(shape)))]).reshape(shape)
+        arrays.append(("w", "stored_float", g))
+        dt = rng.choice(NARROW_DTYPES)
+        arrays.append(("v2", "stored_narrow", narrow_values(rng, shape, dt)))
+        if ctx is not None:
+            ctx.count("narrow_dtype:" + dt)
+            ctx.count("shape_class:" + shape_class)
     for label, kind, arr in arrays:
-        cid = d.add_component(arr, label)
-        model.add(Node(label, kind, label, cid, full=np.array(arr)))
+        layout = rng.choice(LAYOUTS) if rich else "contiguous"
+        arr = with_layout(rng, arr, layout)
+        if rich and ctx is not None:
+            ctx.count("stored_layout:" + layout)
+        dense = np.array(arr)
+        use_dask = rich and kind == "stored_float" and label == "v" and rng.random() < 0.15 and shape_class != "large" \
+            and dense.size > 0
+        if use_dask:
+            import dask.array as da
+            cid = d.add_component(da.from_array(dense, chunks=tuple(max(1, -(-n // 2)) for n in dense.shape)), label)
+            if ctx is not None:
+                ctx.count("dask_backed_input")
+        else:
+            cid = d.add_component(arr, label)
+        node = Node(label, "stored_int" if (kind == "stored_narrow" and dense.dtype.kind in "biu") else
+                    ("stored_float" if kind == "stored_narrow" else kind), label, cid, full=dense)
+        node.narrow = kind == "stored_narrow"
+        node.dask = use_dask
+        model.add(node)
     for ax, pc in enumerate(d.pixel_component_ids):
         full = np.broadcast_to(np.arange(shape[ax]).reshape([-1 if j == ax else 1 for j in range(nd)]), shape)
         model.add(Node("p%d" % ax, "pixel", pc.label, pc, full=np.array(full)))
@@ -446,7 +622,7 @@ def make_dataset(rng, tier, max_dim=3, max_len=4, coords_choices=(None, None, "i
 # ---------------------------------------------------------------- expr cases
 def run_expr(ctx, case):
     rng = ctx.rng
-    d, model, shape, ck = make_dataset(rng, ctx.tier)
+    d, model, shape, ck = make_dataset(rng, ctx.tier, rich=True, ctx=ctx)
     nd = len(shape)
     size = int(np.prod(shape))
     ctx.count("expr_datasets")
@@ -455,18 +631,20 @@ def run_expr(ctx, case):
         if n.kind == "pixel" and not np.array_equal(np.asarray(d[n.cid]), n.full):
             ctx.violation({"kind": "pixel_input_unexpected"}, {"shape": list(shape)})
             return
-    views = [(vk, make_view(rng, shape, vk)) for vk in VIEW_KINDS]
-    views += [(vk, make_view(rng, shape, vk)) for vk in ("int_slice_mix", "slice_tuple_full")]
+    views = case_views(rng, shape)
+    if 0 in shape:
+        views.append(("bool_mask", np.zeros(shape, dtype=bool)))
     input_ok = {}
+    epoch = [0]     # bumped when a stored input is replaced (cached input checks are then stale)
 
     def inputs_consistent(nid, vi, view):
         """input[view] == input_full[view] for the world inputs below nid (pixel/stored are C04's business but cheap)."""
         ok = True
         for m in {x for c in model.chain(nid) for x in leaves(model.nodes[c].desc)}:
             node = model.nodes[m]
-            if node.kind not in ("world", "pixel"):
+            if node.desc is not None:
                 continue
-            if (m, vi) not in input_ok:
+            if input_ok.get((m, vi)) is None:
                 try:
                     got = d[node.cid] if view is None else d[node.cid, view]
                     input_ok[(m, vi)] = compare(got, node.full[vidx(view)], node.full[vidx(view)]) is None
@@ -475,18 +653,122 @@ def run_expr(ctx, case):
             ok = ok and input_ok[(m, vi)]
         return ok
 
+    def check_reads(nid, lk, cid, link, desc, view_items, phase):
+        """Read the derived attribute nid with the given (index, (kind, view)) items and compare with the model."""
+        try:
+            r0full = model.val(nid, 0.0)
+            r1full = model.val(nid, PERT)
+        except RefRaises:
+            return False
+        fl = model.flags(nid)
+        nat = None
+        if fl["has_narrow_input"]:
+            try:
+                nat = [model.val(nid, 0.0, up=False), model.val(nid, 0.0, up="strong")]
+            except RefRaises:
+                ctx.count("skipped_native_dtype_reference_raises")
+                return True
+        kinds_desc = [desc, {m: model.nodes[m].kind for m in leaves(desc)}]
+        for vi, (vk, view) in view_items:
+            if not inputs_consistent(nid, vi, view):
+                ctx.count("read_skipped_input_view_inconsistent(C04/C15)")
+                continue
+            exp0 = r0full[vidx(view)]
+            exp1 = r1full[vidx(view)]
+            expn = None if nat is None else [x[vidx(view)] for x in nat]
+            route = rng.choice(["getitem", "getitem", "get_data", "flat", "link", "component"])
+            try:
+                if route == "link" and lk == "binary" and link is not None:
+                    got = d[link] if view is None else d[link, view]
+                elif route == "component":
+                    comp = d.get_component(cid)
+                    got = comp.data if view is None else comp[view]
+                else:
+                    got = read(d, cid, view, route)
+                how = compare(got, exp0, exp1, expn)
+            except Exception as e:   # noqa
+                got = repr(e)[:200]
+                how = "exception:" + exc_name(e)
+            ctx.evaluation([kinds_desc, list(shape), describe_view(view), phase], size > 1 and n_ops(desc) > 0)
+            ctx.count("value_compared:" + lk)
+            ctx.count("value_view:" + vk)
+            if phase != "first":
+                ctx.count("value_compared_" + phase)
+            if fl["has_pow"]:
+                ctx.count("value_compared_with_pow_tolerance")
+            if fl["has_narrow_input"]:
+                ctx.count("value_compared_with_narrow_dtype_input")
+            if how:
+                sig = {"kind": "derived_value_mismatch", "how": how, "link_kind": lk, "view_kind": vk, "phase": phase}
+                sig.update(fl)
+                sig.update(view_flags(view, exp0))
+                sig.pop("has_pow")
+                sig.pop("has_stored_input")
+                ctx.violation(sig, {"shape": list(shape), "coords": ck, "desc": desc, "view": describe_view(view),
+                                    "route": route, "got": got, "expected": exp0,
+                                    "chain": {m: model.nodes[m].desc for m in model.chain(nid)},
+                                    "inputs": {m: model.nodes[m].full for m in model.nodes if model.nodes[m].desc is None}})
+        return True
+
+    # ---- constants on the left / right of a single broadcast input, every operator (read as data[link, view])
+    bro = [n for n in model.nodes if model.nodes[n].kind in ("pixel", "world")]
+    for _ in range(3 if size else 1):
+        x = rng.choice(bro)
+        c = rng.choice([3, 2, 0.5, 0, 0.0, -1, 1e-10, 1e12, np.float64(2.5), np.int64(3), np.float32(0.5), True])
+        op = rng.choice(sorted(OPS))
+        for desc in ([op, ["c", c], ["in", x]], [op, ["in", x], ["c", c]]):
+            try:
+                r0 = model.val_desc(desc, 0.0)
+                r1 = model.val_desc(desc, PERT)
+            except RefRaises:
+                ctx.count("reference_raises_out_of_domain")
+                continue
+            link = build_binary(desc, model)
+            left = desc[1][0] == "c"
+            for vi in rng.sample(range(len(views)), min(3, len(views))):
+                vk, view = views[vi]
+                node = model.nodes[x]
+                try:
+                    gi = d[node.cid] if view is None else d[node.cid, view]
+                    if compare(gi, node.full[vidx(view)], node.full[vidx(view)]) is not None:
+                        raise ValueError
+                except Exception:
+                    ctx.count("read_skipped_input_view_inconsistent(C04/C15)")
+                    continue
+                try:
+                    got = d[link] if view is None else d[link, view]
+                    how = compare(got, r0[vidx(view)], r1[vidx(view)])
+                except Exception as e:   # noqa
+                    got = repr(e)[:200]
+                    how = "exception:" + exc_name(e)
+                ctx.evaluation([desc[0], repr(c), node.kind, left, list(shape), describe_view(view)], size > 1)
+                ctx.count("const_%s_of_single_broadcast_input" % ("left" if left else "right"))
+                ctx.count("const_class:" + type(c).__name__)
+                if how:
+                    sig = {"kind": "const_op_broadcast_input_mismatch", "how": how, "const_on_left": left, "op": desc[0],
+                           "input_kind": node.kind, "const_type": type(c).__name__, "view_kind": vk}
+                    sig.update(view_flags(view, r0[vidx(view)]))
+                    ctx.violation(sig, {"shape": list(shape), "coords": ck, "desc": desc, "view": describe_view(view),
+                                        "got": got, "expected": r0[vidx(view)], "input": node.full})
+
     n_derived = 8
+    added = []
     for j in range(n_derived):
         pool = [n for n in model.nodes if model.cost(n) <= 40]   # nested derived inputs are recomputed: keep it bounded
-        if rng.random() < 0.85:
-            # a constant-only parsed command is a known defect under every restricting view; do not let it contaminate
-            # (and thereby mask) most later attributes
-            pool = [n for n in pool if not (model.nodes[n].desc is not None and model.flags(n)["chain_has_const_only_parsed"])]
+        parsed_pool = [n for n in pool if model.nodes[n].desc is not None and model.nodes[n].desc[0] == "parsed"]
         r = rng.random()
-        if r < 0.55:
+        if j >= 5 and parsed_pool and r < 0.5:
+            # a parsed command over a parsed-derived attribute (nested parsed expressions under a view)
+            other = rng.choice(pool)
+            t = [rng.choice(["+", "-", "*"]), ["in", rng.choice(parsed_pool)], ["in", other]]
+            if rng.random() < 0.5:
+                t = ["call", rng.choice(["np.abs", "np.negative"]), [t]]
+            desc = ["parsed", t]
+            lk = "parsed"
+            ctx.count("parsed_over_parsed_derived")
+        elif r < 0.55:
             # bias towards mixing a broadcast input with a stored one
             if rng.random() < 0.5:
-                bro = [n for n in pool if model.nodes[n].kind in ("pixel", "world")]
                 sto = [n for n in pool if model.nodes[n].kind.startswith("stored")]
                 pool2 = [rng.choice(bro), rng.choice(sto)] + rng.sample(pool, min(2, len(pool)))
             else:
@@ -507,7 +789,7 @@ def run_expr(ctx, case):
                 desc = ["parsed", gen_parsed(rng, rng.randint(1, 4), pool)]
             lk = "parsed"
         nid = "D%d" % j
-        label = rng.choice(["der%d", "der %d x", "D_%d"]) % j
+        label = rng.choice(["der%d", "der %d x", "D_%d", "v2 %d"]) % j
         try:
             cid, link = add_derived(d, model, desc, label, rng)
         except Exception as e:   # noqa
@@ -516,10 +798,7 @@ def run_expr(ctx, case):
             continue
         model.add(Node(nid, "derived", label, cid, desc=desc))
         ctx.count("derived_added:" + lk)
-        try:
-            r0full = model.val(nid, 0.0)
-            r1full = model.val(nid, PERT)
-        except RefRaises:
+        if not check_reads(nid, lk, cid, link, desc, list(enumerate(views)), "first"):
             ctx.count("reference_raises_out_of_domain")
             del model.nodes[nid]
             model._cache.clear()
@@ -528,48 +807,104 @@ def run_expr(ctx, case):
             except Exception:
                 pass
             continue
+        added.append((nid, lk, cid, link, desc))
         fl = model.flags(nid)
         if fl["has_broadcast_input"] and fl["has_stored_input"]:
             ctx.count("derived_mixing_broadcast_and_stored_inputs")
         if lk == "binary" and (desc[1][0] == "c" or desc[2][0] == "c"):
             ctx.count("binary_root_with_constant_operand:" + ("left" if desc[1][0] == "c" else "right"))
-        kinds_desc = [desc, {m: model.nodes[m].kind for m in leaves(desc)}]
-        for vi, (vk, view) in enumerate(views):
-            if not inputs_consistent(nid, vi, view):
-                ctx.count("read_skipped_input_view_inconsistent(C04/C15)")
-                continue
-            exp0 = r0full[vidx(view)]
-            exp1 = r1full[vidx(view)]
-            route = rng.choice(["getitem", "getitem", "get_data", "flat", "link"])
-            try:
-                if route == "link" and lk == "binary":
-                    got = d[link] if view is None else d[link, view]
-                else:
-                    got = read(d, cid, view, route)
-                how = compare(got, exp0, exp1)
-            except Exception as e:   # noqa
-                got = repr(e)[:200]
-                how = "exception:" + exc_name(e)
-            ctx.evaluation([kinds_desc, list(shape), describe_view(view)], size > 1 and n_ops(desc) > 0)
-            ctx.count("value_compared:" + lk)
-            ctx.count("value_view:" + vk)
-            if fl["has_pow"]:
-                ctx.count("value_compared_with_pow_tolerance")
-            if how:
-                sig = {"kind": "derived_value_mismatch", "how": how, "link_kind": lk, "view_kind": vk}
-                sig.update(fl)
-                sig.update(view_flags(view, exp0))
-                sig.pop("has_pow")
-                sig.pop("has_stored_input")
-                ctx.violation(sig, {"shape": list(shape), "coords": ck, "desc": desc, "view": describe_view(view),
-                                    "route": route, "got": got, "expected": exp0,
-                                    "chain": {m: model.nodes[m].desc for m in model.chain(nid)},
-                                    "inputs": {m: model.nodes[m].full for m in model.nodes if model.nodes[m].desc is None}})
         if rng.random() < 0.003:
-            ctx.sample({"shape": list(shape), "coords": ck, "desc": desc, "full": r0full})
+            ctx.sample({"shape": list(shape), "coords": ck, "desc": desc, "full": model.val(nid, 0.0)})
+
+    if not size:
+        return
+    # ---- read through a Subset (index-list view built by glue itself)
+    if added:
+        nid, lk, cid, link, desc = rng.choice(added)
+        try:
+            sub = d.new_subset()
+            sub.subset_state = model.nodes["w w"].cid > float(np.median(model.nodes["w w"].full))
+            mask = model.nodes["w w"].full > float(np.median(model.nodes["w w"].full))
+            r0, r1 = model.val(nid, 0.0), model.val(nid, PERT)
+            fl = model.flags(nid)
+            nat = [model.val(nid, 0.0, up=False), model.val(nid, 0.0, up="strong")] if fl["has_narrow_input"] else None
+            ok_in = all(inputs_consistent(nid, "subset", tuple(np.nonzero(mask))) for _ in (0,))
+            if ok_in:
+                try:
+                    got = sub[cid]
+                    how = compare(got, r0[mask], r1[mask], None if nat is None else [x[mask] for x in nat])
+                except Exception as e:   # noqa
+                    got = repr(e)[:200]
+                    how = "exception:" + exc_name(e)
+                ctx.evaluation()
+                ctx.count("value_compared_through_subset")
+                if how:
+                    sig = {"kind": "derived_value_mismatch", "how": how, "link_kind": lk, "view_kind": "subset", "phase": "subset"}
+                    sig.update({k: v for k, v in fl.items() if k not in ("has_pow", "has_stored_input")})
+                    ctx.violation(sig, {"shape": list(shape), "desc": desc, "got": got, "expected": r0[mask]})
+        except RefRaises:
+            pass
+
+    # ---- an input is replaced under its existing ComponentID between two reads of the derived attributes
+    for rep_i in range(2):
+        target = rng.choice(["v", "i", "w w", "v2", "w"])
+        node = model.nodes[target]
+        how_rep = rng.choice(["update_components", "add_component"])
+        if node.dask:
+            how_rep = "add_component"     # update_components documents "Component subclasses cannot be updated"
+            node.dask = False
+        if node.full.dtype.kind == "f":
+            arr = rand_floats(rng, shape, p_special=0.1).astype(node.full.dtype)
+        else:
+            arr = rand_ints(rng, shape).astype(node.full.dtype) if node.full.dtype.kind != "b" else ~node.full
+        try:
+            if how_rep == "update_components":
+                d.update_components({node.cid: arr})
+            else:
+                d.add_component(arr, node.cid)
+        except Exception as e:   # noqa
+            ctx.violation({"kind": "input_replacement_failed", "how": "exception:" + exc_name(e), "via": how_rep},
+                          {"shape": list(shape), "target": target, "error": repr(e)[:300]})
+            return
+        if node.full.dtype.kind == "b":
+            node.narrow = True
+        node.full = np.array(arr)
+        model._cache.clear()
+        epoch[0] += 1
+        for key in [k for k in input_ok if k[0] == target]:
+            del input_ok[key]
+        ctx.count("input_replaced:" + how_rep)
+        # the replaced input itself
+        if compare(d[node.cid], node.full, node.full) is not None:
+            ctx.violation({"kind": "replaced_input_not_served", "via": how_rep}, {"shape": list(shape), "target": target})
+            return
+        for (nid, lk, cid, link, desc) in added:
+            items = [(0, views[0])] + [rng.choice(list(enumerate(views)))]      # view None first, then a random one
+            dep = target in {x for c in model.chain(nid) for x in leaves(model.nodes[c].desc)}
+            if dep:
+                ctx.count("dependant_read_after_input_replaced")
+            check_reads(nid, lk, cid, link, desc, items, "after_input_replaced_by_" + how_rep)
 
 
 # ---------------------------------------------------------------- history cases
+class _ReadingListener(HubListener):
+    def __init__(self, data, ctx):
+        self.data, self.ctx = data, ctx
+
+    def register_to_hub(self, hub):
+        hub.subscribe(self, ComponentsChangedMessage, handler=self.read_all, filter=lambda m: m.sender is self.data)
+        hub.subscribe(self, NumericalDataChangedMessage, handler=self.read_all, filter=lambda m: m.sender is self.data)
+
+    def read_all(self, msg):
+        for cid in self.data.components:
+            try:
+                np.asarray(self.data[cid])
+                self.ctx.count("reads_inside_change_handler")
+            except Exception:
+                self.ctx.count("reads_inside_change_handler_raised(intermediate_state)")
+
+
+
 def run_hist(ctx, case):
     rng = ctx.rng
     d, model, shape, ck = make_dataset(rng, ctx.tier, max_dim=2, max_len=3,
@@ -578,11 +913,19 @@ def run_hist(ctx, case):
     if in_dc:
         dc = DataCollection([d])   # noqa: F841  (keeps the hub alive)
         ctx.count("histories_in_data_collection")
+        if rng.random() < 0.6:
+            # re-entrancy: a listener that reads every listed attribute while the change message is being broadcast
+            # (intermediate states may list attributes that are not readable yet - only the final state is judged)
+            listener = _ReadingListener(d, ctx)
+            listener.register_to_hub(dc.hub)
+            ctx.count("histories_with_reading_listener")
     ctx.count("histories")
+    removed_labels = []
+    foreign = Data(label="foreign", q=np.arange(int(np.prod(shape)), dtype=float).reshape(shape))
     order = [c.label for c in d.components]          # labels, in glue's own initial order
     by_label = {n.label: n.nid for n in model.nodes.values()}
     order = [by_label[lab] for lab in order]
-    nsteps = rng.randint(5, 14)
+    nsteps = rng.randint(7, 18)
     counter = 0
     hist = []
 
@@ -592,6 +935,9 @@ def run_hist(ctx, case):
         det = {"shape": list(shape), "history": hist, "order_model": [model.nodes[n].label for n in order]}
         det.update(detail)
         ctx.violation(sig, det)
+
+    def label_unique(nid):
+        return sum(1 for n in model.nodes.values() if n.label == model.nodes[nid].label) == 1
 
     def check_state(step_kind, nontrivial, extra_sig=None):
         """Order of components, derived set, values of every live derived attribute."""
@@ -652,6 +998,68 @@ def run_hist(ctx, case):
             r = 0.7          # a removal right after the storage order / a definition changed
         after_shuffle = False
         der = [n for n in live if model.nodes[n].desc is not None]
+        stored = [n for n in order if model.nodes[n].kind in ("stored_float", "stored_int")]
+        if 0.26 <= r < 0.32 and stored:
+            # ---- the values of a stored input are replaced under its existing ComponentID
+            target = rng.choice(stored)
+            node = model.nodes[target]
+            arr = (rand_floats(rng, shape, p_special=0.1) if node.full.dtype.kind == "f" else rand_ints(rng, shape))
+            via = rng.choice(["update_components", "add_component"])
+            hist.append(["replace_values", node.label, via])
+            try:
+                if via == "update_components":
+                    d.update_components({node.cid: arr})
+                else:
+                    d.add_component(arr, node.cid)
+            except Exception as e:   # noqa
+                fail("input_replacement_failed", {"how": "exception:" + exc_name(e), "via": via}, {"error": repr(e)[:300]})
+                return
+            node.full = np.array(arr)
+            model._cache.clear()
+            ctx.count("hist_replace_values")
+            if len(model.closure(target)) > 1:
+                ctx.count("hist_replace_values_with_dependants")
+            if not check_state("replace_values:" + via, len(model.closure(target)) > 1):
+                return
+            continue
+        if 0.22 <= r < 0.26:
+            # ---- a call that must fail (or be a no-op), followed by valid calls on the same objects
+            fk = rng.choice(["read_bad_view", "link_foreign_input", "read_unknown_label", "update_id_foreign",
+                             "remove_foreign", "reorder_wrong_list", "update_derived_values", "update_wrong_shape"])
+            hist.append(["fault", fk])
+            expect = None
+            try:
+                if fk == "read_bad_view":
+                    expect = IndexError
+                    d[model.nodes[rng.choice(live)].cid, (max(shape) + 5,)]
+                elif fk == "link_foreign_input":
+                    expect = ValueError
+                    d.add_component_link(foreign.id["q"] * 2, "bad")
+                elif fk == "read_unknown_label":
+                    expect = IncompatibleAttribute
+                    d["no such attribute"]
+                elif fk == "update_id_foreign":
+                    d.update_id(foreign.id["q"], ComponentID("zz"))
+                elif fk == "remove_foreign":
+                    d.remove_component(foreign.id["q"])
+                elif fk == "reorder_wrong_list":
+                    expect = ValueError
+                    d.reorder_components([model.nodes[n].cid for n in order][:-1])
+                elif fk == "update_derived_values" and der:
+                    expect = TypeError
+                    d.update_components({model.nodes[rng.choice(der)].cid: np.zeros(shape)})
+                elif fk == "update_wrong_shape" and stored:
+                    expect = ValueError
+                    d.update_components({model.nodes[rng.choice(stored)].cid: np.zeros(tuple(n + 1 for n in shape))})
+                raised = None
+            except Exception as e:   # noqa
+                raised = e
+            ctx.count("hist_fault:" + fk)
+            if expect is not None and raised is not None and not isinstance(raised, expect):
+                ctx.count("hist_fault_raised_other_exception_type")
+            if not check_state("fault:" + fk, False):
+                return
+            continue
         if 0.40 <= r < 0.50 and len(order) > 2:
             # ---- reorder the components: a derived attribute may now be stored ahead of its inputs
             perm = list(order)
@@ -679,7 +1087,7 @@ def run_hist(ctx, case):
         if 0.32 <= r < 0.40 and der:
             # ---- re-define an existing derived attribute under its own ComponentID (stays where it is stored),
             # preferably in terms of a derived attribute stored *after* it
-            cands = [n for n in der if not model.nodes[n].renamed_with_dependants]
+            cands = list(der)
             target = rng.choice(cands) if cands else None
             pool = [n for n in live if target is not None and n not in model.closure(target) and model.cost(n) <= 30]
             if target is None or not pool:
@@ -696,7 +1104,7 @@ def run_hist(ctx, case):
             elif kind < 0.8:
                 desc = ["fn", "lin1" if len(ins) == 1 else "mul2", ins]
             else:
-                desc = ["parsed", ["*", t, ["c", 2]]]
+                desc = ["parsed", ["*", t, ["c", 2]]] if all(label_unique(x) for x in ins) else ["*", t, ["c", 2]]
             node = model.nodes[target]
             hist.append(["redefine", node.label, desc])
             try:
@@ -737,6 +1145,8 @@ def run_hist(ctx, case):
                 for x in ins[1:]:
                     t = [rng.choice(["+", "-", "*"]), t, ["in", x]]
                 desc = ["parsed", ["*", t, ["c", 2]] if rng.random() < 0.5 else ["call", "np.abs", [t]]]
+                if not all(label_unique(x) for x in ins):
+                    desc = ["*", t, ["c", 2]]       # a tag must name one attribute: ambiguous labels are not parsed
             counter += 1
             nid = "D%d" % counter
             label = "d%d" % counter
@@ -754,11 +1164,15 @@ def run_hist(ctx, case):
         elif r < 0.58:
             counter += 1
             label = "s%d" % counter
+            if removed_labels and rng.random() < 0.5:
+                label = removed_labels.pop()            # do - remove - re-add under the same label (a new identifier)
+                ctx.count("hist_readd_removed_label")
             arr = rand_floats(rng, shape, p_special=0.1)
             hist.append(["add_stored", label])
             cid = d.add_component(arr, label)
-            model.add(Node(label, "stored_float", label, cid, full=np.array(arr)))
-            order.append(label)
+            snid = "S%d" % counter
+            model.add(Node(snid, "stored_float", label, cid, full=np.array(arr)))
+            order.append(snid)
             if not check_state("add_stored", False):
                 return
         elif r < 0.82:
@@ -772,12 +1186,27 @@ def run_hist(ctx, case):
             pos = {n: i for i, n in enumerate(order)}
             out_of_order = any(pos[m] > pos[n] for n in gone if model.nodes[n].desc is not None
                                for m in leaves(model.nodes[n].desc) if m in gone)
-            hist.append(["remove", model.nodes[victim].label])
+            victims = [victim]
+            if rng.random() < 0.06:
+                # everything stored goes, one call after the other: only attributes derived from pixel/world survive
+                victims = [n for n in order if model.nodes[n].kind in ("stored_float", "stored_int")]
+                gone = set().union(*[model.closure(v) for v in victims]) if victims else set()
+                ctx.count("hist_remove_everything_stored")
+            twice = rng.random() < 0.3
+            hist.append(["remove", [model.nodes[v].label for v in victims], "twice" if twice else "once"])
             try:
-                d.remove_component(model.nodes[victim].cid)
+                for v in victims:
+                    d.remove_component(model.nodes[v].cid)
+                    if twice:
+                        d.remove_component(model.nodes[v].cid)      # same operation twice: the second is a no-op
             except Exception as e:   # noqa
-                fail("remove_failed", {"how": "exception:" + exc_name(e)}, {"error": repr(e)[:300]})
+                fail("remove_failed", {"how": "exception:" + exc_name(e), "twice": twice}, {"error": repr(e)[:300]})
                 return
+            if twice:
+                ctx.count("hist_remove_twice")
+            for v in victims:
+                if model.nodes[v].kind.startswith("stored"):
+                    removed_labels.append(model.nodes[v].label)
             order[:] = [n for n in order if n not in gone]
             for n in gone:
                 del model.nodes[n]
@@ -798,7 +1227,7 @@ def run_hist(ctx, case):
             # ---- update_id
             cand = removable
             nodep = [n for n in cand if len(model.closure(n)) == 1]
-            if nodep and rng.random() < 0.6:
+            if nodep and rng.random() < 0.4:
                 target = rng.choice(nodep)
             else:
                 target = rng.choice(cand)
@@ -807,7 +1236,20 @@ def run_hist(ctx, case):
             counter += 1
             newlabel = node.label + "_r%d" % counter
             new = ComponentID(newlabel, parent=d if rng.random() < 0.5 else None)
-            hist.append(["update_id", node.label, newlabel])
+            variant = "fresh"
+            q = rng.random()
+            if q < 0.25 and node.old_cids:
+                new = node.old_cids[-1]                 # walk back: A -> B -> A
+                newlabel = new.label
+                variant = "back_to_previous_id"
+            elif q < 0.4:
+                other = rng.choice([n for n in order if n != target])
+                newlabel = model.nodes[other].label     # equal-but-distinct: a second identifier with the same label
+                new = ComponentID(newlabel, parent=d)
+                variant = "label_equal_to_another_attribute"
+            ctx.count("hist_update_id_variant:" + variant)
+            node.old_cids.append(node.cid)
+            hist.append(["update_id", node.label, newlabel, variant])
             try:
                 d.update_id(node.cid, new)
             except Exception as e:   # noqa
@@ -862,10 +1304,13 @@ def run_hist(ctx, case):
 
 def run_case(ctx, case):
     UNSTABLE[0] = 0
+    AMBIGUOUS[0] = 0
     if case[0] == "expr":
         run_expr(ctx, case)
     else:
         run_hist(ctx, case)
+    if AMBIGUOUS[0]:
+        ctx.count("elements_left_out_dtype_semantics_ambiguous", AMBIGUOUS[0])
     if UNSTABLE[0]:
         ctx.count("elements_left_out_reference_unstable_under_pow_perturbation", UNSTABLE[0])
 
@@ -879,6 +1324,20 @@ def floors(counters, tier):
             "binary_root_with_constant_operand:left": 30, "binary_root_with_constant_operand:right": 30,
             "histories_in_data_collection": 50, "hist_reorder": 100, "hist_redefine_on_later_stored_derived": 10,
             "hist_remove_with_dependant_stored_before_its_input": 20}
+    need.update({"const_left_of_single_broadcast_input": 300, "const_right_of_single_broadcast_input": 300,
+                 "parsed_over_parsed_derived": 50, "input_replaced:update_components": 40, "input_replaced:add_component": 40,
+                 "dependant_read_after_input_replaced": 200, "value_compared_with_narrow_dtype_input": 2000,
+                 "shape_class:large": 5, "shape_class:zero_size": 4, "shape_class:single_element": 5, "dask_backed_input": 8,
+                 "value_compared_through_subset": 40, "hist_replace_values_with_dependants": 20, "hist_remove_twice": 50,
+                 "hist_update_id_variant:back_to_previous_id": 10, "hist_update_id_variant:label_equal_to_another_attribute": 50,
+                 "histories_with_reading_listener": 30, "hist_readd_removed_label": 20, "hist_remove_everything_stored": 15})
+    for lay in LAYOUTS:
+        need["stored_layout:" + lay] = 50
+    for fk in ("read_bad_view", "link_foreign_input", "read_unknown_label", "update_id_foreign", "remove_foreign",
+               "reorder_wrong_list", "update_derived_values", "update_wrong_shape"):
+        need["hist_fault:" + fk] = 5
+    for vk in EXTRA_VIEW_KINDS:
+        need["value_view:" + vk] = 500
     for k, lo in need.items():
         if counters.get(k, 0) < lo:
             out.append("fewer than %d %s" % (lo, k))
